@@ -231,6 +231,13 @@ func toEnum(src val.EnumList, v interface{}) (val.Enum, error) {
 	if e, isEnum := v.(val.Enum); isEnum {
 		v = e.Label
 	}
+	if text, isText := v.(string); isText {
+		// text is a name first (RFC7950 Sec 9.6.4: any string may be an enum name, also one
+		// that reads as a number or as the value of another name), an id only after that
+		if e, found := src.ByLabel(text); found {
+			return e, nil
+		}
+	}
 	if id, isNum := val.Conv(val.FmtInt32, v); isNum == nil && id != nil {
 		if e, found := src.ById(id.Value().(int)); found {
 			return e, nil
